@@ -140,7 +140,7 @@ def rule_lf4(repo, col):
     skip = [n for n in outer[0].body if isinstance(n, ast.If) and norm(n.test) == "len(%s) == 1" % idx and any(isinstance(x, ast.Continue) for x in n.body)]
     col.decide("LF4", m, skip[0] if skip else outer[0], len(skip) == 1, "single-member groups are not rescaled", "a group with one member is not an AD and must be skipped",
                **({} if skip else {"construct": "single-member groups", "function": "LFIProblem._normalize_weights"}))
-    keyloops = [n for n in outer[0].body if isinstance(n, ast.For) and isinstance(n.target, ast.Name) and norm(n.iter) == "keys"]
+    keyloops = [n for n in outer[0].body if isinstance(n, ast.For) and isinstance(n.target, ast.Name) and norm(n.iter) in ("keys", "list(keys)", "sorted(keys)", "tuple(keys)")]
     if len(keyloops) != 1:
         raise AnalysisError("_normalize_weights: loop over the substitutions not found")
     kl = keyloops[0]
@@ -173,6 +173,11 @@ def rule_lf4(repo, col):
     okc = False
     if len(calls) == 1 and len(calls[0].args) >= 3:
         a = [norm(x) for x in calls[0].args[:3]]
+        # read the stored value through temporaries of the loop body
+        for p_ in dtable.extract_block(scal[0].body, opaque_loops=True):
+            for fn_, a_, node_ in p_.calls:
+                if node_ is calls[0] and len(a_) >= 3:
+                    a = list(a_[:3])
         mm = None
         import re
         mm = re.match(r"^self\._get_weight\(%s, %s, strict=False\) \* (\w+)$" % (i, key), a[2])
@@ -194,6 +199,20 @@ def rule_lf4(repo, col):
             elif cd.get("%s == 0" % cand) is not None:
                 nz = not cd.get("%s == 0" % cand)
         val = p.env.get(nvar)
+        if nz is None and val is not None:
+            # the factor written as a conditional expression: <a> if w != 0 else <b>
+            try:
+                ve = ast.parse(val, mode="eval").body
+            except SyntaxError:
+                ve = None
+            if isinstance(ve, ast.IfExp):
+                tsrc = norm(ve.test)
+                pos = tsrc in ("%s != 0" % w, "%s != 0" % wt)
+                neg = tsrc in ("%s == 0" % w, "%s == 0" % wt)
+                if pos or neg:
+                    nzv, zv = (norm(ve.body), norm(ve.orelse)) if pos else (norm(ve.orelse), norm(ve.body))
+                    okn = okn and nzv in ("%s / %s" % (avail, w), "%s / %s" % (avail, wt)) and zv == avail
+                    continue
         if nz is True:
             okn = okn and val in ("%s / %s" % (avail, w), "%s / %s" % (avail, wt))
         elif nz is False:
